@@ -20,7 +20,7 @@ TECHNIQUE = ('exhaustive enumeration of pumping families (unit alphabet derived 
              'doubling lengths up to a bound, CPU-time oracle in killable isolated workers')
 LEVEL_TEXT = ('Every unit of a run-time derived alphabet (every literal character and character-class member of every compiled '
               'pattern in pytrs.parser.rgxlib, plus ~45 short tokens) is pumped in 13 contexts x 7 suffixes (and, as a bare Tract, in 7 x 4 contexts) with n = 4, 8, 16, ... up to '
-              '300 (quick) / 600 (thorough) characters; thorough adds all two-unit alternations; 32 structural families (repeated '
+              '300 (quick) / 600 (thorough) characters; thorough adds all two-unit alternations; 39 structural families (repeated '
               'Twp/Rge lines, section headers, lots, lists, aliquots, chains; ranges with k-digit end points and repeated maximal ranges, '
               'whose expansion is large although the text is short), whitespace runs around every pattern word, and every short token '
               'sequence in every order (PLSSDesc and Tract) are included. The oracle is a measured resource '
@@ -361,6 +361,14 @@ STRUCT_FAMILIES = {
     'sec_ranges_36': lambda k: 'T154N-R97W Secs ' + ', '.join(['1 - 36'] * k) + ': Lots 1 - 99, ALL',
     'aliquot_dups': lambda k: 'T154N-R97W Sec 14: ' + 'NE/4, ' * k,
     'twprge_secs': lambda k: '\n'.join(['T154N-R97W Secs 1 - 36: ALL'] * k),
+    # lists in which the keyword is repeated before every number, followed by another Twp/Rge (context checks run on them)
+    'sec_kw_repeated_dot': lambda k: 'T154N-R97W ' + ', '.join(f"Sec. {1 + i % 36}" for i in range(k)) + ': NE/4\nT155N-R97W Sec. 1: SW/4',
+    'sec_kw_repeated': lambda k: 'T154N-R97W ' + ', '.join(f"Sec {1 + i % 36}" for i in range(k)) + ': NE/4\nT155N-R97W Sec 1: SW/4',
+    'sec_kw_repeated_word': lambda k: 'T154N-R97W ' + ' and '.join(f"Section {1 + i % 36}" for i in range(k)) + ': NE/4, T155N-R97W',
+    'sec_kw_repeated_plural': lambda k: 'T154N-R97W ' + ', '.join(f"Secs. {1 + i % 30} - {3 + i % 30}" for i in range(k)) + ': NE/4 T155N-R97W',
+    'sect_kw_repeated': lambda k: ', '.join(f"Sect. {1 + i % 36}" for i in range(k)) + ': NE/4, T155N-R97W',
+    'lot_kw_repeated_dot': lambda k: 'T154N-R97W Sec 14: ' + ', '.join(f"L. {i + 1}" for i in range(k)) + ', NE/4',
+    'lot_kw_repeated_lt': lambda k: 'T154N-R97W Sec 14: ' + ' and '.join(f"Lt. {i + 1}" for i in range(k)),
 }
 # families whose *answer* is very large: k maximal three-digit section ranges (999 tracts each), and section ranges x lot ranges
 # (the lots of every tract are expanded).  Their cost does not depend on the mode; they are run under the default mode only.
